@@ -3,7 +3,7 @@
     mirrors src/protocol/parser.rs and serializer.rs after the repairs
     2aff8f9, 19441b8, cb498ad; [dparse]/[dprint] are the oracles for Rust's
     f64 <-> decimal text conversion and are universally quantified. *)
-From Ferrous Require Import Generated Base.Bytes Model.Resp Proofs.BytesFacts Proofs.RespFacts.
+From Ferrous Require Import Generated Base.Bytes Model.Resp Proofs.BytesFacts Proofs.RespFacts Proofs.RespPipeFacts.
 Open Scope Z_scope.
 
 (** Serialising any well-formed value and parsing the bytes gives back the same
@@ -45,6 +45,21 @@ Theorem c20_drain_total :
   drain dparse fuel buf [] = drain_buf dparse buf.
 Proof. exact drain_fuel_irrelevant. Qed.
 
+(** Pipelining: any list of well-formed values serialised back to back and fed to the
+    server's read loop (RespParser::parse repeatedly: whitespace skipping, the inline PING
+    shortcut, newline trimming after a frame) in ANY chunking comes back as exactly those
+    values, in order, with every byte consumed and the parser waiting for more input. *)
+Theorem c20_pipeline_roundtrip :
+  forall dparse dprint fs b chunks,
+  Forall (wf dparse dprint max_levels) fs -> ser_list dprint fs = (b, true) ->
+  concat chunks = b ->
+  run_chunks dparse chunks = (fs, NeedMore) /\ drain_buf dparse b = (fs, NeedMore, []).
+Proof.
+  intros dparse dprint fs b chunks Hwf Hs Hc. split.
+  - exact (pipeline_roundtrip_chunks dparse dprint fs b chunks Hwf Hs Hc).
+  - exact (pipeline_roundtrip dparse dprint fs b Hwf Hs).
+Qed.
+
 (** never reserves memory according to a declared length it has not received *)
 Theorem c20_reserve_bounded :
   forall declared data, reserve_request declared data <= len data.
@@ -59,6 +74,15 @@ Example c20_wf_inhabited :
      (FArray [FBulk (bs "SET"); FBulk [13; 10; 0; 255]; FInt (-5); FNullBulk;
               FMap [FSimple (bs "k"); FSet [FBool true; FNull]]; FArray []]) = true.
 Proof. vm_compute. reflexivity. Qed.
+
+(** the pipeline theorem's premises are met by a non-trivial pipeline, split mid-frame *)
+Example c20_pipeline_inhabited :
+  let fs := [FArray [FBulk (bs "SET"); FBulk [13; 10]]; FSimple (bs "PING"); FInt (-1); FArray []] in
+  let b := fst (ser_list no_dprint fs) in
+  forallb (wfb no_dparse no_dprint max_levels) fs = true /\
+  ser_list no_dprint fs = (b, true) /\
+  run_chunks no_dparse [firstn 7 b; firstn 9 (skipn 7 b); skipn 16 b] = (fs, NeedMore).
+Proof. vm_compute. repeat split; reflexivity. Qed.
 
 (** outside [wf] the round-trip is not the identity: a simple string containing
     CR LF reads back with the two bytes written as spaces (still one frame, see C05) *)
